@@ -257,10 +257,12 @@ def generate(t, max_nodes=10, allow_fail=False, ops_enabled=None) -> Plan:
             s.consumers += 1
             plan.nodes.append({"id": nid, "op": "cond", "modulo": modulo, "ins": {"a": s.name}, "outs": {"a": o.name}})
     if allow_fail:
-        xfs = [n for n in plan.nodes if n["op"] == "xf"]
+        # a transformer (handles its own exceptions: FAILED) or a plug-in combinator (CombinatorStep has no handler: the
+        # exception escapes step.run() and the executor closes everything)
+        xfs = [n for n in plan.nodes if n["op"] in ("xf", "dot", "cart")]
         if xfs and t.draw(3, "fail?") > 0:
             n = xfs[t.draw(len(xfs), "fail.node")]
-            tags = _sorted_tags(plan.streams[n["outs"]["o"]].expected)
+            tags = _sorted_tags(plan.streams[n["outs"]["o" if n["op"] == "xf" else "a"]].expected)
             if tags:
                 plan.fail = {"node": n["id"], "tag": tags[t.draw(len(tags), "fail.tag")]}
     return plan
@@ -269,6 +271,30 @@ def generate(t, max_nodes=10, allow_fail=False, ops_enabled=None) -> Plan:
 def _prefix_ok(s, d):
     """every tag of d has its prefix (at s's depth) — or d deeper than s at all."""
     return True
+
+
+_FAILING = {}
+
+
+def failing_combinator(base, tag):
+    """A plug-in combinator (subclass of the repo's) whose combine() raises when it produces `tag`."""
+    key = (base, tag)
+    if key not in _FAILING:
+        class Failing(base):
+            fail_tag = tag
+
+            async def combine(self, port_name, token):
+                async for schema in super().combine(port_name, token):
+                    if any(v["token"].tag == self.fail_tag for v in schema.values()):
+                        import sfsim.core as _core
+
+                        _core.CURRENT.fault("combinator_raises")
+                        raise RuntimeError(f"injected failure in combinator {self.name} at tag {self.fail_tag}")
+                    yield schema
+
+        Failing.__name__ = Failing.__qualname__ = "Failing" + base.__name__
+        _FAILING[key] = Failing
+    return _FAILING[key]
 
 
 def build(plan: Plan, wf: Workflow):
@@ -310,7 +336,10 @@ def build(plan: Plan, wf: Workflow):
             st.add_input_port("a", ins["a"].port)
             st.add_output_port("a", outs["o"].port)
         elif n["op"] in ("dot", "cart"):
-            comb = (DotProductCombinator if n["op"] == "dot" else CartesianProductCombinator)(name=f"/{nid}-c", workflow=wf)
+            cls = DotProductCombinator if n["op"] == "dot" else CartesianProductCombinator
+            if plan.fail and plan.fail["node"] == nid:
+                cls = failing_combinator(cls, plan.fail["tag"])
+            comb = cls(name=f"/{nid}-c", workflow=wf)
             comb.add_item("a")
             comb.add_item("b")
             st = wf.create_step(CombinatorStep, name=f"/{nid}-comb", combinator=comb)
